@@ -104,4 +104,28 @@ func c13Proxied(r *ev.Result, w *c13World, id func() string) {
 	}
 	r.Set("proxied_calls", n)
 	r.Set("proxy_tunnels_opened", tunnels.Load())
+	/* The process has put a round tripper of its own on the default client
+	(instrumentation, a request counter) whose transport trusts every
+	server: the pinned calls do not go through it unpinned. */
+	oldClientRT := http.DefaultClient.Transport
+	inner := &http.Transport{TLSClientConfig: &tls.Config{RootCAs: pool}}
+	http.DefaultClient.Transport = c13CountingRT{inner: inner}
+	defer func() {
+		http.DefaultClient.Transport = oldClientRT
+		inner.CloseIdleConnections()
+	}()
+	for _, c := range []c13Call{{Server: "A", Pin: "pinA"}, {Server: "B", Pin: "pinA"}, {Server: "I", Pin: "pinA"}, {Server: "A", Pin: "not-base64"}, {Server: "B", Pin: "31-bytes"}} {
+		i := id()
+		vd, err, sh := w.run(c, i, nil)
+		w.judge(r, "default client given a wrapping round tripper whose transport trusts every server", map[string]any{"calls": []c13Call{c}, "wrapped_default_client": true}, c, i, vd, err, sh)
+		r.Evaluations++
+		r.Traces++
+	}
+}
+
+// c13CountingRT is a round tripper that is not an *http.Transport.
+type c13CountingRT struct{ inner http.RoundTripper }
+
+func (c c13CountingRT) RoundTrip(req *http.Request) (*http.Response, error) {
+	return c.inner.RoundTrip(req)
 }
